@@ -865,6 +865,7 @@ def run(ctx):
     except Exception as ex:  # a translator that cannot parse its source is a broken tie
         ctx.broke("translator", "translate/rename_tables.py", repr(ex))
     ctx.prove("RModel.Props.C08")
+    ctx.prove("RModel.Props.Compose")      # planner -> apply -> undo chained (C08 + C02/C05 + C01)
     ok, msg = common.cargo_build()
     if not ok:
         ctx.broke("build", "cargo", msg)
